@@ -19,6 +19,10 @@ namespace AC
 /-- the source filters whenever a hand state is present, whatever the table status (regenerated) -/
 theorem C20_filter_fact : observerFilterRecognised = true := by decide
 
+/-- registering a listener on an observer only stores it (regenerated from actor/observer_runner.go): nothing the runner
+already holds — a snapshot kept unfiltered while it was in system mode, say — is handed to the newcomer -/
+theorem C20_subscribe_fact : Facts.observerSubscribe = ["obr.onTableStateUpdated = fn", "return nil"] := by decide
+
 /-- the adapter marshals the table, unmarshals into a fresh value and forwards *that* (regenerated) -/
 theorem C20_adapter_fact :
     Facts.adapterUpdate =
